@@ -1,20 +1,59 @@
-(* Property C18 — Floats are printed shortest-round-trip in ECMAScript format
-   Statement-level file; see DESIGN.md §6 C18.  Model-level theorems are under
-   proof in Proofs/ (see obligations.json); this file carries the tie
-   obligations and what is proved so far; the property is decided on every run
-   by the correspondence described in DESIGN.md. *)
-From SJ Require Import Model.Base Model.RefTables Spec.Json Model.Tape Model.Iter Model.Serialize Model.FloatFmt Model.Marshal Tie.GoTablesTie Tie.SerializeTie.
+(* Property C18 — floats are printed shortest-round-trip in ECMAScript format.
+   Theorems about Model/FloatFmt.v.  The digit generator is modelled BY
+   SPECIFICATION (simdjson-go's copy of Go's Ryu code is tied to it
+   differentially and against encoding/json); what is proved here is that the
+   specification-level generator and the format layer have the property. *)
+From Coq Require Import Reals.
+From SJ Require Import Model.Base Model.RefTables Spec.Json Model.Iter Model.FloatFmt Proofs.NumLex Proofs.NumberFinal
+     Proofs.FloatFmtReal Proofs.FloatFmtText Proofs.FloatFmtProofs Proofs.FloatFmtSwitch Tie.GoTablesTie Tie.SerializeTie.
 Open Scope N_scope.
+
+(* every finite bit pattern is printed; the text is a JSON number that the
+   correctly rounding parser reads back to the IDENTICAL bit pattern (sign of
+   zero included in the literal's sign) *)
+Theorem C18_roundtrip : forall bits, bits < two64 -> sf_is_finite (sf_of_bits bits) = true ->
+  exists txt l, fmt_float bits = Some txt /\
+    (forall rest, rest_ok rest = true -> lex_number (txt ++ rest) = Some (l, rest)) /\
+    nl_neg l = (two63 <=? bits) /\
+    bits_of_sf (dec_to_float (nl_neg l) (lit_mant l) (lit_e10 l)) = bits.
+Proof. exact fmt_float_roundtrip. Qed.
+
+(* shortest: no decimal with fewer significant digits parses back to the float *)
+Theorem C18_minimal : forall bits s m e ds dp,
+  sf_of_bits bits = SpecFloat.S754_finite s m e -> shortest bits = (ds, dp) ->
+  forall j c' k', (1 <= j < Z.of_nat (length ds))%Z -> (0 < c' < 10 ^ j)%Z ->
+  bits_of_sf (dec_to_float false c' k') <> bits mod two63.
+Proof. exact shortest_minimal. Qed.
+
+(* and among the decimals of that length that do, it is the closest *)
+Theorem C18_closest : forall bits s m e ds dp,
+  sf_of_bits bits = SpecFloat.S754_finite s m e -> shortest bits = (ds, dp) ->
+  forall c2 k2, (0 < c2 < 10 ^ Z.of_nat (length ds))%Z ->
+  bits_of_sf (dec_to_float false c2 k2) = bits mod two63 ->
+  (Rabs (dval (digits_val ds 0) (dp - Z.of_nat (length ds)) - xval m e) <= Rabs (dval c2 k2 - xval m e))%R.
+Proof. exact shortest_closest. Qed.
+
+(* ECMAScript format: plain decimals exactly when the decimal exponent satisfies
+   -6 < dp <= 21 (i.e. 1e-6 <= |x| < 1e21), exponent form otherwise; the
+   bit-pattern test of the code against float64(1e-6) and float64(1e21) agrees
+   with this decimal-exponent rule *)
+Theorem C18_es6_format : forall bits s m e ds dp, bits < two64 ->
+  sf_of_bits bits = SpecFloat.S754_finite s m e -> shortest bits = (ds, dp) ->
+  fmt_float bits = Some (if (-6 <? dp)%Z && (dp <=? 21)%Z then fmt_f (two63 <=? bits) ds dp else fmt_e (two63 <=? bits) ds dp).
+Proof. exact fmt_float_es6. Qed.
+Definition C18_text_shape := fmt_float_shape.
+Definition C18_no_exponent_padding := fmt_float_exponent_range.
+
+Theorem C18_nonfinite_is_error : forall bits, fmt_float bits = None <-> sf_is_finite (sf_of_bits bits) = false.
+Proof. exact fmt_float_none_iff. Qed.
+
 Theorem C18_tie_es6_thresholds :
   bits_of_sf (dec_to_float false 1 (-6)) = bits_1em6 /\ bits_of_sf (dec_to_float false 1 21) = bits_1e21 /\
   gen.Consts.gen_es6_lit0_num = 1%Z /\ gen.Consts.gen_es6_lit0_den = (10 ^ 6)%Z /\
   gen.Consts.gen_es6_lit1_num = (10 ^ 21)%Z /\ gen.Consts.gen_es6_lit1_den = 1%Z.
 Proof. destruct tie_es6_thresholds as (_ & A & B & C & D & E & F). repeat split; assumption. Qed.
-Example C18_examples :
-  fmt_float 4591870180066957722 = Some (of_codes [48; 46; 49]) /\               (* 0.1 *)
-  fmt_float 4921056587992461136 = Some (of_codes [49; 101; 43; 50; 49]) /\      (* 1e+21 *)
-  fmt_float 4502148214488346440 = Some (of_codes [49; 101; 45; 55]) /\          (* 1e-7 *)
-  fmt_float 1 = Some (of_codes [53; 101; 45; 51; 50; 52]) /\                    (* 5e-324 *)
-  fmt_float 9223372036854775808 = Some (of_codes [45; 48]).                     (* -0 *)
-Proof. vm_compute. repeat split; reflexivity. Qed.
-Print Assumptions C18_tie_es6_thresholds.
+
+Print Assumptions C18_roundtrip.
+Print Assumptions C18_minimal.
+Print Assumptions C18_closest.
+Print Assumptions C18_es6_format.
